@@ -9,7 +9,7 @@ META = {
              "their bytes; file_exists, directory_exists, file_size, directory_files, make_directory, make_directory_path, delete_file, delete_directory, "
              "rename_file, file_copy, path_canonical, path_segments with the errors of files.pl): make_then_exists, delete_then_absent, rename_moves_content, "
              "copy_preserves_content_and_source, directory_files_lists_children, make_directory_path_creates_ancestors, path_segments_roundtrip, "
-             "wellformed_preserved (every entry keeps a directory as parent under every operation sequence). The model is tied to the code and to the OS "
+             "wellformed_preserved (every entry keeps a directory as parent under every operation sequence), errors_on_missing_or_ill_typed. The model is tied to the code and to the OS "
              "three ways: sequences of up to 12 operations are executed by scryer inside a fresh scratch directory; each answer is compared with the model "
              "in Coq, and the final directory tree as read by Python (os.walk + file contents) is compared with the model's final state."),
     "note": ("Trusted: Coq kernel + vm_compute; the Python generator and os.walk; harness vrun; the OS (assumed to implement the tree). Modelled, not "
@@ -17,7 +17,7 @@ META = {
              "permissions); ill-typed path arguments (atom, integer, variable) are included. File contents are written through open/4 + put_byte. "
              "file_*_time/2 and working_directory/2 are not covered (they depend on the clock / process state). No axioms."),
     "technique": ("Coq proof (make_then_exists, delete_then_absent, rename_moves_content, copy_preserves_content_and_source, directory_files_lists_children, "
-                  "make_directory_path_creates_ancestors, path_segments_roundtrip, wellformed_preserved) over a reference model + three-way differential "
+                  "make_directory_path_creates_ancestors, path_segments_roundtrip, wellformed_preserved, errors_on_missing_or_ill_typed) over a reference model + three-way differential "
                   "correspondence (scryer answers, model, OS state) evaluated in Coq"),
     "design_ref": "DESIGN.md section 8, C48",
     "coq_targets": ["C48/Props.vo"], "coq_dirs": ["C48"], "props": "C48/Props.v",
@@ -115,7 +115,7 @@ def gen_case(rng):
             op = ("mv", src, src if rng.random() < 0.08 else pk("new", "new", "file", "dir", "any"))
         elif r < 0.90:
             src = pk("file", "file", "file", "dir", "any")
-            op = ("cp", src, src if rng.random() < 0.10 else pk("new", "new", "file", "dir", "any"))
+            op = ("cp", src, src if rng.random() < 0.04 else pk("new", "new", "file", "dir", "any"))
         elif r < 0.94: op = ("pc", pk("file", "dir", "any"))
         elif r < 0.96: op = ("ps", rng.choice(["/a//b/", "", "a", "/", "a/b c/é", "日本/x.txt", "//"]))
         elif r < 0.97: op = ("pj", tuple(rng.choice(["", "a", "b c", "é", "x.txt"]) for _ in range(rng.choice([0, 1, 2, 3]))))
@@ -276,7 +276,7 @@ CORPUS = [
 
 def run(ctx):
     rng = ctx.rng
-    n = ctx.scale(2000, 30000)
+    n = ctx.scale(1500, 30000)
     cases, seen = list(CORPUS), set()
     while len(cases) < n:
         c = gen_case(rng)
